@@ -333,3 +333,8 @@ Section Machine.
 End Machine.
 
 Arguments Good {A} a. Arguments Bad {A} e.
+
+(** [swap_temperatures] with [reset_after_swap]: the levels whose proposals are reset
+    ([if self.reset_after_swap and tk != swap_index[tk]: chain.reset_proposals()]) *)
+Definition reset_levels (idx : list nat) : list nat :=
+  filter (fun tk => negb (Nat.eqb tk (nth tk idx 0))) (seq 0 (length idx)).
